@@ -176,6 +176,7 @@ fn verif_pure_dir_hash()
         vec![f("out/a.txt", "A"), f("out/b.txt", "B")],
         vec![f("out/a.c", "int a() { return 1; }\n"), f("out/b.c", "int b() { return 2; }\nint c() { return 3; }\n"), f("out/c.h", "int a(); int b(); int c();\n")],
         vec![f("out/a.txt", "A"), f("out/sub/a.txt", "SA"), f("out/sub/c.txt", "SC")],
+        vec![f("out/outline.txt", "O"), f("out/sub/subtotal.txt", "S"), f("out/sub/z.txt", "Z"), f("out/zz.txt", "ZZ")],
         vec![f("out/m.txt", "M"), f("out/sub/deep/x.txt", "X"), f("out/sub/deep/y.txt", "Y"), f("out/sub/k.txt", "K"), f("out/zub/x.txt", "X")],
     ];
     for tree in trees.iter()
@@ -190,6 +191,13 @@ fn verif_pure_dir_hash()
             let mut variants : Vec<(String, Vec<(String, String)>)> = vec![];
             /*  rename the file (two new names: one sorting last in its directory, one keeping its place) */
             for new_name in ["zzz.txt", "a0.txt"].iter() { let mut v = tree.clone(); v[i].0 = format!("{}/{}", dir, new_name); variants.push((format!("rename {} to {}/{}", path, dir, new_name), v)); }
+            /*  rename it to its name without the name of the directory it is in (names that contain their directory's name: lib/libfoo.a) */
+            {
+                let name : String = path.rsplitn(2, '/').next().unwrap().to_string();
+                let last : String = dir.rsplitn(2, '/').next().unwrap().to_string();
+                let stripped = name.replace(&last, "");
+                if stripped != name && !stripped.is_empty() && !tree.iter().any(|e| e.0 == format!("{}/{}", dir, stripped)) { let mut v = tree.clone(); v[i].0 = format!("{}/{}", dir, stripped); variants.push((format!("rename {} to {}/{}", path, dir, stripped), v)); }
+            }
             /*  change its bytes */
             { let mut v = tree.clone(); v[i].1 = format!("{}!", content); variants.push((format!("change the bytes of {}", path), v)); }
             /*  remove it (unless that empties the tree) */
@@ -409,6 +417,33 @@ fn verif_pure_bundle()
             t.case();
             let want = ref_bundle(&lines);
             let got = match guard(|| match PathBundle::parse_lines(lines.clone()) { Ok(b) => Some(b.get_path_strings('/')), Err(_) => None }) { Some(g) => g, None => { t.wrong(&format!("{:?}", lines), "bundle parsing PANICKED"); continue; } };
+            /*  "rejected with the matching error kind at the offending line": a wrong-indent error names a line that IS indented more
+                than one level deeper than the line before it (or the first line, if it is indented at all); an empty-lines error
+                lists exactly the lines that hold nothing but tabs; a contradiction names two lines with the same name */
+            if let Some(Err(e)) = guard(|| PathBundle::parse_lines(lines.clone()))
+            {
+                let mut body = lines.clone(); if body.last() == Some(&"") { body.pop(); }
+                let level = |l: &str| l.chars().take_while(|c| *c == '\t').count();
+                match e
+                {
+                    bundle::ParseError::WrongIndent(n) =>
+                    {
+                        let offending = n < body.len() && (if n == 0 { level(body[0]) > 0 } else { level(body[n]) > level(body[n - 1]) + 1 });
+                        if !offending { t.wrong(&format!("{:?}", lines), &format!("wrong indent reported on line {}, which is not an over-indented line", n)); }
+                    },
+                    bundle::ParseError::ContainsEmptyLines(v) =>
+                    {
+                        let want : Vec<usize> = body.iter().enumerate().filter(|(_, l)| l.chars().all(|c| c == '\t')).map(|(i, _)| i).collect();
+                        if v != want { t.wrong(&format!("{:?}", lines), &format!("empty lines reported at {:?}, the lines holding nothing but tabs are {:?}", v, want)); }
+                    },
+                    bundle::ParseError::Contradiction(a, b) =>
+                    {
+                        let name = |l: &str| -> String { l.chars().skip(level(l)).collect() };
+                        if a >= body.len() || b >= body.len() || a == b || name(body[a]) != name(body[b]) || level(body[a]) != level(body[b]) { t.wrong(&format!("{:?}", lines), &format!("contradiction reported between lines {} and {}, which are not two entries of one name at one level", a, b)); }
+                    },
+                    bundle::ParseError::Empty => { if !body.is_empty() { t.wrong(&format!("{:?}", lines), "reported as empty, but there are lines"); } },
+                }
+            }
             match (&want, &got)
             {
                 (Some(w), Some(g)) => { if g != w { t.wrong(&format!("{:?}", lines), &format!("paths {:?} expected {:?}", g, w)); } },
